@@ -193,6 +193,17 @@ func init() {
 					s, _, how = SynthBoundary(r)
 					how = "synth:" + how
 				}
+				if i%3 == 1 {
+					// small alphabet, output a little beyond the 64 KiB window: packed [literal.., length] table
+					// entries meet the window edge while the distance code is still missing from the input
+					alpha := 2 + r.Intn(7)
+					d := make([]byte, 65536+200+r.Intn(500))
+					for q := range d {
+						d[q] = byte('a' + r.Intn(alpha))
+					}
+					s = stdDeflate(d, r.Pick([]int{1, 6, 9}))
+					how = fmt.Sprintf("stdlib:alpha%d", alpha)
+				}
 				kind := "valid"
 				nSched := 8
 				for j := 0; j < nSched; j++ {
